@@ -338,3 +338,41 @@ def mon_no_panic(trace):
     if 'outoffuel' in trace:
         return 'outoffuel'
     return None
+
+
+def mon_readbuf(case_line, trace):
+    """ReadBuffer against a plain FIFO written here: every read appends what the transport handed over (at most CHUNK bytes of the
+    chunk on offer, the rest stays on offer), advance drops from the front (panics past the end), chunk/remaining/into_vec show
+    exactly the unconsumed bytes"""
+    f = case_line.split(' ')
+    cs = int(f[2]); fifo = bytearray(ws.unhx(f[3]))
+    ops = [] if f[4] in ('-', '') else f[4].split(',')
+    offer = [] if f[5] in ('-', '') else f[5].split(',')
+    got = trace.split(' | ') if trace else []
+    exp = []
+    dead = False
+    for o in ops:
+        if o == 'rf':
+            if not offer:
+                exp.append('err:io:wb')
+            else:
+                r = offer.pop(0)
+                if r.startswith('d:'):
+                    d = ws.unhx(r[2:]); take = d[:cs]
+                    if d[cs:]: offer.insert(0, 'd:' + ws.hx(d[cs:]))
+                    fifo += take; exp.append('ok:%d' % len(take))
+                elif r == 'eof': exp.append('ok:0')
+                else: exp.append('err:io:' + r[2:])
+        elif o.startswith('ad:'):
+            n = int(o[3:])
+            if n > len(fifo):
+                exp.append('panic'); dead = True; break
+            del fifo[:n]; exp.append('ok:%d' % n)
+        elif o == 'ch': exp.append('b:' + ws.hx(bytes(fifo)))
+        elif o == 'rm': exp.append('ok:%d' % len(fifo))
+    if not dead:
+        exp.append('iv:' + ws.hx(bytes(fifo)))
+    if got != exp:
+        i = next((j for j in range(min(len(got), len(exp))) if got[j] != exp[j]), min(len(got), len(exp)))
+        return 'readbuffer-not-fifo: step %d: ReadBuffer answered %s, a FIFO of the same bytes answers %s' % (i, (got[i] if i < len(got) else 'nothing')[:40], (exp[i] if i < len(exp) else 'nothing')[:40])
+    return None
